@@ -72,9 +72,10 @@ func genInterop(t *rapid.T, c *Case) *InteropCase {
 
 // inproc routes the helpers' HTTP requests into the provider under test.
 type inproc struct {
-	sut   *vkit.SUT
-	panic string
-	log   []string
+	sut     *vkit.SUT
+	handler http.Handler // nil: sut.Handler
+	panic   string
+	log     []string
 }
 
 func (t *inproc) RoundTrip(req *http.Request) (*http.Response, error) {
@@ -89,7 +90,11 @@ func (t *inproc) RoundTrip(req *http.Request) (*http.Response, error) {
 	for k, v := range req.Header {
 		sr.Header[k] = v
 	}
-	r := vkit.Serve(t.sut.Handler, t.sut.Store, sr)
+	h := t.handler
+	if h == nil {
+		h = t.sut.Handler
+	}
+	r := vkit.Serve(h, t.sut.Store, sr)
 	t.log = append(t.log, fmt.Sprintf("%s %s -> %d", req.Method, req.URL.Path, r.Status))
 	if r.Panic != nil {
 		t.panic = r.PanicFrame()
@@ -310,22 +315,57 @@ func runInterop(c Case, res *vkit.Result) {
 
 // rpFlow drives a relying party configured with rp.WithJWTProfile through login and code exchange.
 func rpFlow(ctx context.Context, ag *vkit.Agent, sut *vkit.SUT, hc *http.Client, X *vkit.ClientSpec, ic *InteropCase, pem []byte) (bool, string) {
-	hashKey := []byte("0123456789abcdef0123456789abcdef")
-	encKey := []byte("fedcba9876543210fedcba9876543210")
-	cookies := httphelper.NewCookieHandler(hashKey, encKey, httphelper.WithUnsecure())
-	redirect := X.RedirectURIs[0]
-	party, err := rp.NewRelyingPartyOIDC(ctx, sut.Issuer(), X.ID, "", redirect, []string{"openid", "profile"},
-		rp.WithHTTPClient(hc), rp.WithCookieHandler(cookies), rp.WithJWTProfile(rp.SignerFromKeyAndKeyID(pem, ic.Kid)))
+	inst, err := newRPInstance(ctx, sut.Issuer(), hc, X, ic.Kid, pem)
 	if err != nil {
 		return false, fmt.Sprintf("NewRelyingPartyOIDC: %v", err)
 	}
+	ok, info, _ := inst.login(ag)
+	return ok, info
+}
+
+// rpInstance is a relying party as an application runs it: one party, one login handler and one callback handler, registered
+// once and serving every login.
+type rpInstance struct {
+	party    rp.RelyingParty
+	start    http.HandlerFunc
+	callback http.HandlerFunc
+	got      bool
+	detail   string
+}
+
+func newRPInstance(ctx context.Context, issuer string, hc *http.Client, X *vkit.ClientSpec, kid string, pem []byte) (*rpInstance, error) {
+	hashKey := []byte("0123456789abcdef0123456789abcdef")
+	encKey := []byte("fedcba9876543210fedcba9876543210")
+	cookies := httphelper.NewCookieHandler(hashKey, encKey, httphelper.WithUnsecure())
+	party, err := rp.NewRelyingPartyOIDC(ctx, issuer, X.ID, "", X.RedirectURIs[0], []string{"openid", "profile"},
+		rp.WithHTTPClient(hc), rp.WithCookieHandler(cookies), rp.WithJWTProfile(rp.SignerFromKeyAndKeyID(pem, kid)))
+	if err != nil {
+		return nil, err
+	}
+	inst := &rpInstance{party: party}
+	inst.start = rp.AuthURLHandler(func() string { return "rp-state" }, party)
+	inst.callback = rp.CodeExchangeHandler(func(w http.ResponseWriter, r *http.Request, tokens *oidc.Tokens[*oidc.IDTokenClaims], state string, p rp.RelyingParty) {
+		inst.got = tokens != nil && tokens.AccessToken != "" && tokens.IDTokenClaims != nil
+		if inst.got && tokens.IDTokenClaims.Subject != "u1" {
+			inst.got = false
+			inst.detail = "tokens of another subject"
+		}
+	}, party)
+	return inst, nil
+}
+
+// login runs one login through the instance: the browser side (authorize, login, callback) goes through ag, the code is
+// redeemed by the party itself. The returned duration covers only the redemption (assertion signed and presented).
+// Not for concurrent use.
+func (inst *rpInstance) login(ag *vkit.Agent) (bool, string, time.Duration) {
+	inst.got, inst.detail = false, ""
 	// 1. the RP sends the browser to the provider
 	w := httptest.NewRecorder()
-	rp.AuthURLHandler(func() string { return "rp-state" }, party)(w, httptest.NewRequest("GET", "https://rp.example.com/login", nil))
+	inst.start(w, httptest.NewRequest("GET", "https://rp.example.com/login", nil))
 	loc := w.Result().Header.Get("Location")
 	u, err := url.Parse(loc)
 	if err != nil || loc == "" {
-		return false, "AuthURLHandler did not redirect: " + w.Body.String()
+		return false, "AuthURLHandler did not redirect: " + w.Body.String(), 0
 	}
 	// 2. authorize -> login -> callback at the provider
 	fl := ag.RunAuth(u.Query(), "u1")
@@ -334,25 +374,19 @@ func rpFlow(ctx context.Context, ag *vkit.Agent, sut *vkit.SUT, hc *http.Client,
 		if fl.CallbackResp != nil {
 			d += " / " + fl.CallbackResp.Describe()
 		}
-		return false, "no code: " + d
+		return false, "no code: " + d, 0
 	}
 	// 3. the browser comes back to the RP, which redeems the code with a JWT-profile client assertion
 	back := httptest.NewRequest("GET", fl.CallbackResp.Location(), nil)
 	for _, ck := range w.Result().Cookies() {
 		back.AddCookie(ck)
 	}
-	got := false
-	var detail string
 	w2 := httptest.NewRecorder()
-	rp.CodeExchangeHandler(func(w http.ResponseWriter, r *http.Request, tokens *oidc.Tokens[*oidc.IDTokenClaims], state string, p rp.RelyingParty) {
-		got = tokens != nil && tokens.AccessToken != "" && tokens.IDTokenClaims != nil
-		if got && tokens.IDTokenClaims.Subject != "u1" {
-			got = false
-			detail = "tokens of another subject"
-		}
-	}, party)(w2, back)
-	if !got {
-		return false, strings.TrimSpace(detail + " " + fmt.Sprint(w2.Code) + " " + w2.Body.String())
+	t0 := time.Now()
+	inst.callback(w2, back)
+	el := time.Since(t0)
+	if !inst.got {
+		return false, strings.TrimSpace(inst.detail + " " + fmt.Sprint(w2.Code) + " " + w2.Body.String()), el
 	}
-	return true, ""
+	return true, "", el
 }
